@@ -1104,3 +1104,30 @@ Section Pub.
       + destruct Sh as (-> & _ & _). rewrite rend_cells. destruct (Nat.eqb_spec D d) as [->|]; reflexivity.
   Qed.
 End Pub.
+
+(* ====================================================================== *)
+(* Refutations by computation                                              *)
+(* ====================================================================== *)
+Definition runT (P : params) (progs : list (list op)) (sched : list (nat * nat)) : sysT :=
+  run glob loc (tstep P) (init progs) sched.
+
+(* the publication program: t0 attaches a trigger to explicit line 0, writes datum 0, destroys the
+   trigger; t1 polls a detector of that line and reads the datum when it reports tripped *)
+Definition pub_progs : list (list op) :=
+  [[MkTrigE 0 0; WriteData 0 7; Destroy 0]; [MkDetE 0 0; PollRead 0 0]].
+Definition pub_sched : list (nat * nat) :=
+  [(0,0);(0,0);(0,0);(0,0);(0,0);(0,0); (1,0);(1,0);(1,0);(1,0);(1,0)]%nat.
+Definition Pviews (st ld : mo) : params := mkP false true st ld 3 1 1 2.
+Definition pub_line : nat := line_exp (Pviews Release Acquire) 0.
+
+Lemma relaxed_refuted :
+  (exists progs sched, wf_pub (Pviews Relaxed Acquire) 0 pub_line 0 progs = true /\
+                       grace (gl (runT (Pviews Relaxed Acquire) progs sched)) 0 = true) /\
+  (exists progs sched, wf_pub (Pviews Release Relaxed) 0 pub_line 0 progs = true /\
+                       grace (gl (runT (Pviews Release Relaxed) progs sched)) 0 = true).
+Proof. split; exists pub_progs, pub_sched; split; vm_compute; reflexivity. Qed.
+
+(* the pre-repair destructor: make a trigger, move-construct another from it, destroy the moved-from one *)
+Definition Punfixed : params := mkP true false tw_store_mo tw_load_mo 3 1 0 1.
+Lemma unfixed_refuted : exists progs sched, gnull (gl (runT Punfixed progs sched)) = true.
+Proof. exists [[MkTrigE 0 0; MoveCtor 0 1; Destroy 0]], [(0,0);(0,0);(0,0)]%nat. vm_compute. reflexivity. Qed.
